@@ -60,6 +60,32 @@ theorem normalize_wire (n : AName) (h : Valid n) (hl : (rep n).flatten.length < 
 example : Name.decode (Name.encode (rep [(8, [97]), (8, []), (65535, [0, 255])])) =
     .ok ([[8, 1, 97], [8, 0], [253, 255, 255, 2, 0, 255]], 13) := by decide
 
+/-- **decode_accepts_exact.** For EVERY byte string: when `Name.decode` accepts, the buffer starts with Type 7 and a
+    Length that lies inside the buffer, the components returned - joined - are exactly the `Length` bytes after the
+    header (no component is cut short, none runs past the declared Length, nothing is left over) and the count of bytes
+    consumed is header + Length.  So the component list and the wire say the same thing whenever the wire is accepted. -/
+theorem decode_accepts_exact (buf : Bytes) (cs : List Bytes) (used : Nat) (h : Name.decode buf = .ok (cs, used)) :
+    ∃ st length sl, parseTlNum buf 0 = .ok (7, st) ∧ parseTlNum buf st = .ok (length, sl) ∧
+      used = st + sl + length ∧ used ≤ buf.length ∧ cs.flatten = pySlice buf (st + sl) used :=
+  decode_ok_exact h
+
+/-- **decode_overrun_rejected.** A Name TLV whose declared Length `L` ends strictly inside one of its components -
+    after any number of whole components, whatever bytes follow, whether or not the component itself lies inside the
+    buffer - is rejected with `IndexError` by `Name.decode`, and so by `Name.normalize` of that wire (the repaired
+    behaviour: the component is no longer accepted with a slice cut at the end of the buffer). -/
+theorem decode_overrun_rejected (n : AName) (p : AComp) (post : Bytes) (L : Nat) (h : Valid n) (hp : ValidComp p)
+    (h1 : (rep n).flatten.length < L) (h2 : L < (rep n).flatten.length + (repC p).length) (hL : L < 2^64) :
+    Name.decode (writeTlNum Name.TYPE_NAME ++ writeTlNum L ++ (rep n).flatten ++ (repC p ++ post)) = .error .indexError ∧
+    Name.normalize (.wire (writeTlNum Name.TYPE_NAME ++ writeTlNum L ++ (rep n).flatten ++ (repC p ++ post)))
+      = .error .indexError := by
+  have hd := decode_overrun (rep n) (repC p) post (rep_wf n h) ⟨p.1, p.2, hp.1, hp.2.1, hp.2.2, rfl⟩ L h1 h2 hL
+  exact ⟨hd, by simp only [Name.normalize, hd]; rfl⟩
+
+/-- Length 3, one component of 4 bytes lying wholly inside the buffer, then another component: `IndexError` -/
+example : Name.decode [7, 3, 8, 2, 0x61, 0x62, 8, 0] = .error .indexError := by decide
+/-- the same component cut by the end of the buffer -/
+example : Name.decode [7, 3, 8, 5, 0x61] = .error .indexError := by decide
+
 /-! ## 2. prefix test -/
 
 /-- **isPrefix_iff.** `is_prefix` is exactly the list-prefix relation on component lists. -/
